@@ -72,7 +72,64 @@ pub fn run(env: &Env) -> Report {
     });
     let mut rep = Report::new("c04");
     for r in reps { rep.merge(r); }
+    rep.merge(switching(env));
+    // the layout FILE itself: generated documents read by serde_json (riti's steps), by the Lean reader and by riti (harness/src/layoutdoc.rs)
+    rep.merge(riti_harness::layoutdoc::run(&env.a.out, &env.tsv, &env.scratch, &env.data, seed, env.quick()));
     rep.exhaustive = true;
     rep.notes.push("65536 key codes x 7 modifier bytes x numpad on/off x 4 layouts (Probhat, S1, probe, sparse probe with absent/empty entries in every pattern) enumerated completely against the implementation".into());
+    rep
+}
+
+/// the layout file can also be loaded by re-configuring a LIVE context: one context is taken through a chain of layouts with
+/// update_engine — another file, a file with the SAME NAME in another directory and other values, the phonetic method and back —
+/// and after every step every published key (Normal and AltGr plane) must emit what the file now configured assigns to it
+fn switching(env: &Env) -> Report {
+    let dir = env.a.out.clone();
+    let alt = dir.join("c04-alt"); let _ = std::fs::create_dir_all(&alt);
+    let probe = write_probe(&dir);
+    // same file name, other directory, other values (and a hole where the original has a value)
+    let lj: serde_json::Value = serde_json::from_str(&std::fs::read_to_string(&probe).unwrap()).unwrap();
+    let mut m2: std::collections::BTreeMap<String, String> = lj["layout"].as_object().unwrap().iter().map(|(k, v)| (k.clone(), format!("[{}]", v.as_str().unwrap_or("")))).collect();
+    m2.insert("Key_k_Normal".into(), String::new()); m2.remove("Key_j_Normal");
+    let twin = alt.join(probe.file_name().unwrap());
+    std::fs::write(&twin, serde_json::to_string(&json!({"info": {"layout": {"name": "twin"}}, "layout": m2})).unwrap()).unwrap();
+    let s1 = write_s1(&dir);
+    let chain: Vec<String> = vec![probe.to_str().unwrap().into(), twin.to_str().unwrap().into(), PHONETIC.into(), twin.to_str().unwrap().into(), s1.to_str().unwrap().into(), PROBHAT.into(), probe.to_str().unwrap().into()];
+    let mut rep = Report::new("c04");
+    let xdg = env.fresh_xdg("c04-switch");
+    let mut t = env.trace("c04.switch");
+    for l in &chain { if l != PHONETIC { t.layout(l, &env.tsv); } }
+    for numpad in [false, true] {
+        t.line(&format!("case c04-switching-numpad{}", numpad as u8));
+        let mut opts = Opts::none(); opts.numpad = numpad;
+        let id = format!("sw{}", numpad as u8);
+        let mut s = Sess::new(&mut t, &env.data, &id, &chain[0], opts, &xdg).expect("context");
+        for (step, lp) in chain.iter().enumerate() {
+            if step > 0 { s.update(&mut t, lp, opts); }
+            if lp == PHONETIC { let o = s.key(&mut t, code_for_char('k').unwrap(), 0, 0); if s.imp.ongoing() { s.finish(&mut t); } let _ = o; continue; }
+            let lj: serde_json::Value = serde_json::from_str(&std::fs::read_to_string(lp).unwrap()).unwrap();
+            let lmap: HashMap<String, String> = lj["layout"].as_object().unwrap().iter().map(|(k, v)| (k.clone(), v.as_str().unwrap_or("").to_string())).collect();
+            for k in KEYS {
+                for m in [0u8, 2, 1] {
+                    let exp = expected(&lmap, k.1, m, numpad);
+                    let o = s.key(&mut t, k.1, m, 0);
+                    let ongoing = s.imp.ongoing();
+                    let got: Option<String> = match &o { Obs::Single { text, .. } => if text.is_empty() { None } else { Some(text.clone()) }, _ => Some("<not-a-single-suggestion>".into()) };
+                    rep.eval(Some(&format!("switch|{}|{}|{}|{}", step, k.1, m, numpad))); rep.count("key-after-layout-switch");
+                    let first_is_kar = exp.as_ref().and_then(|e| e.chars().next()).map(|c| "\u{09BE}\u{09BF}\u{09C0}\u{09C1}\u{09C2}\u{09C3}\u{09C7}\u{09C8}\u{09CB}\u{09CC}\u{09C4}".contains(c)).unwrap_or(false);
+                    if got != exp || ongoing != exp.is_some() {
+                        let class = if first_is_kar && exp.as_ref().map(|e| e.chars().count() > 1).unwrap_or(false) && got.as_deref() == exp.as_ref().map(|e| e.chars().take(1).collect::<String>()).as_deref() { "multi-codepoint-value-starting-with-vowel-sign" } else { "wrong-text-for-key" };
+                        rep.violation("C04", class, format!("after re-configuring a live context (step {} of {:?}) key {} modifier {} numpad {}: the file now configured assigns {:?}, got {:?}, ongoing {}", step, chain, k.1, m, numpad, exp, got, ongoing),
+                            json!({"stream": "c04", "layout": chain[0], "opts": opts.bits_str(), "events": s.events, "expected": exp, "observed": got}));
+                    }
+                    if got.is_some() || ongoing { s.finish(&mut t); }
+                }
+            }
+            // keep the recorded history short: the replay only needs the updates and the last key
+            s.events.retain(|e| e.starts_with("update"));
+        }
+        t.line(&format!("drop {}", id));
+    }
+    t.flush();
     rep
 }
